@@ -919,6 +919,87 @@ class H4ctl(Case):
         return obs
 
 
+class H4ctlt(Case):
+    """float-time controls with a NON-ZERO start_time (binary-exact dt = 1/8, start_time = 1/2, symbolic
+    operators): get_controls(step, dt, start_time) asked repeatedly -- same step and different steps, in
+    two orders -- answers like a fresh equal object each time and as documented (control at time t belongs
+    to step round((t - start_time)/dt)); the stored time stamps are unchanged by queries; a Control used in
+    two compute_dynamics runs with start_time != 0 == fresh copies.  The time stamps are concrete floats
+    (which step a stamp belongs to is a concrete fact); the solver decides the operator equalities."""
+    functions = ("control.Control.add_single", "control.Control.get_controls", "system_dynamics.compute_dynamics")
+    stubs = ("System.get_propagators -> symbolic half-step propagators",)
+    env = {"noconj": True}
+    DT, T0 = 0.125, 0.5
+
+    def __init__(self, variant):
+        self.variant = variant
+        self.id = "H4/time_controls_start_%s" % variant
+        self.bounds = {"variant": variant, "dt": "1/8", "start_time": "1/2", "d": 2, "steps": 3}
+
+    def _mk(self, ops):
+        c = Control(2)
+        dt, t0 = self.DT, self.T0
+        c.add_single(t0 + 1 * dt, ops[0].copy())                 # step 1, pre
+        c.add_single(t0 + 2 * dt, ops[1].copy())                 # step 2, pre
+        c.add_single(t0 + 2 * dt, ops[2].copy())                 # step 2, pre, stacked on the same stamp
+        c.add_single(t0 + 2 * dt, ops[3].copy(), post=True)      # step 2, post
+        c.add_single(t0 + 0 * dt, ops[4].copy(), post=True)      # step 0, post
+        c.add_single(3, ops[5].copy())                           # integer step 3, pre
+        return c
+
+    def run(self, inp):
+        D = 4
+        ops = [inp.arr("C%d" % i, (D, D)) for i in range(6)]
+        doc = {0: (None, ops[4]), 1: (ops[0], None), 2: (ops[2] @ ops[1], ops[3]), 3: (ops[5], None)}
+        q = lambda c, step: c.get_controls(step, dt=self.DT, start_time=self.T0)
+        obs = []
+        if self.variant == "queries":
+            for oname, order in (("forward", [1, 2, 0, 2, 1, 1, 3, 0]), ("backward", [0, 3, 1, 1, 2, 0, 2, 1])):
+                c = self._mk(ops)
+                stamps = {k: np.array(v, copy=True) for k, v in c._control_times.items()}
+                for n, step in enumerate(order):
+                    with _quiet():
+                        got = q(c, step)
+                        exp = q(self._mk(ops), step)
+                    for side, g, e, dc in zip(("pre", "post"), got, exp, doc[step]):
+                        lab = "%s order, query %d (step %d) %s" % (oname, n, step, side)
+                        if e is None or dc is None:
+                            obs.append(Ob.holds(lab + ": None as for a fresh object / as documented", g is None and e is None and dc is None,
+                                                key="repeated_query"))
+                            continue
+                        obs.append(Ob.holds(lab + ": a control is found", g is not None, key="repeated_query"))
+                        if g is not None:
+                            obs += [Ob.eq(lab + " == fresh object", g, e, key="repeated_query"),
+                                    Ob.eq(lab + " == documented control of that step", g, dc, key="repeated_query")]
+                same = all(np.array_equal(np.array(c._control_times[k]), stamps[k]) for k in stamps)
+                obs.append(Ob.holds("%s order: stored time stamps unchanged by the queries" % oname, same, key="state_unchanged"))
+            return obs
+        # reuse in two computations with start_time != 0
+        d, N = 2, 3
+        P1 = [lib.gen_prop(inp, "p%d" % k, d) for k in range(N)]
+        P2 = [lib.gen_prop(inp, "q%d" % k, d) for k in range(N)]
+        ra, rb = inp.arr("ra", (d, d)), inp.arr("rb", (d, d))
+
+        def dyn(c, rho):
+            with _quiet():
+                return lib.dynamics_states(sd.compute_dynamics(lib.FakeSystem(d, P1, P2), initial_state=rho, dt=self.DT, num_steps=N,
+                                                               start_time=self.T0, control=c, progress_type="silent"))
+        fa, fb = dyn(self._mk(ops), ra), dyn(self._mk(ops), rb)
+        for order in ("ab", "ba"):
+            c = self._mk(ops)
+            res = {}
+            for w in order:
+                res[w] = dyn(c, ra if w == "a" else rb)
+            for n in range(N + 1):
+                obs.append(Ob.eq("order %s: run a state %d == fresh Control" % (order, n), res["a"][n], fa[n], key="reuse"))
+                obs.append(Ob.eq("order %s: run b state %d == fresh Control" % (order, n), res["b"][n], fb[n], key="reuse"))
+        # documented effect: step-1 control acts before the state of step 1 is recorded
+        v = ra.reshape(D)
+        v1 = ops[0] @ (P2[0] @ (P1[0] @ (ops[4] @ v)))
+        obs.append(Ob.eq("state 1 = C(step 1, pre) P2 P1 C(step 0, post) rho0", fa[1], v1.reshape(d, d), key="reuse"))
+        return obs
+
+
 class H4tebd(Case):
     """the same ChainControl (two controls stacked on one site/step/side) and process tensors used in two
     PtTebd computations == the computation with fresh copies (real PtTebd on a two-site chain without
@@ -1107,7 +1188,7 @@ def cases(tier):
             cs += [H3mps(1, lay), H3mps(3, lay), H3mps(4, lay)]
     cs += [H3tempo("C", alias=True), H3ctrl_alias()]
     cs += [H3rec(v) for v in ("dynamics_ctor", "dynamics_add", "meanfield_add", "compute_dynamics_nopt", "compute_dynamics_pt")]
-    cs += [H4ctl("control"), H4ctl("chain_control"), H4tebd(1)]
+    cs += [H4ctl("control"), H4ctl("chain_control"), H4tebd(1), H4ctlt("queries"), H4ctlt("compute_dynamics")]
     for cls in ("system", "tdsystem", "tdsystem_field", "parameterized", "meanfield"):
         cs += [H3ctor(cls, m) for m in ("assign", "append", "pop")]
     cs.append(H3ctor("chain", "assign"))
